@@ -95,6 +95,20 @@ def perform(o, call, keep=None):
         res = list(o.solve([call["objective"]], solver=rec))
         return {"objectives": rec.calls[0][1], "poly": poly_snap(rec.calls[0][0])[1], "res": jsonable(res)}
     if k == "ge_polyhedron": return config_poly_snap(o.ge_polyhedron)
+    if k == "poly_query":
+        # a query on the polyhedron the configurator hands out (and keeps): column / row analyses and point classification
+        g = o.ge_polyhedron
+        ncols = g.shape[1] - 1
+        q = call["q"]
+        if q == "neglectable":
+            pat = np.zeros((1, ncols), dtype=np.int64); pat[0, :max(1, ncols // 2)] = 1
+            return safe(lambda: np.asarray(g.neglectable_columns(pat)).tolist())
+        if q == "separable": return safe(lambda: np.asarray(g.separable(np.zeros(ncols, dtype=np.int64))).tolist())
+        if q == "tighten": return safe(lambda: np.asarray(g.tighten_column_bounds()).tolist())
+        if q == "row_bounds": return safe(lambda: np.asarray(g.row_bounds()).tolist())
+        if q == "reducable":
+            return safe(lambda: [np.asarray(x).tolist() for x in g.reducable_rows_and_columns()] and "ok")
+        return safe(lambda: np.asarray(g.ineqs_satisfied(np.ones(ncols, dtype=np.int64))).tolist())
     if k == "default_prios": return sorted([a, int(b)] for a, b in o.default_prios.items())
     if k == "leafs": return [v.id for v in o.leafs()]
     if k == "select":
@@ -129,13 +143,15 @@ def gen_call(rng, o, t, is_cfg, prev=None):
     lv = leaves_of(t)
     kinds = ["evaluate", "evalprops", "assume", "reduce", "negate", "negate", "errors", "to_json", "to_b64", "encode", "flatten", "solve", "json_roundtrip"]
     if is_cfg:
-        kinds += ["ge_polyhedron", "ge_polyhedron", "default_prios", "leafs", "select", "select", "add"]
+        kinds += ["ge_polyhedron", "ge_polyhedron", "default_prios", "leafs", "select", "select", "add", "poly_query", "poly_query"]
     k = rng.choice(kinds)
     c = {"k": k}
     if k in ("evaluate", "evalprops", "assume"):
         I = gen_interp(rng, t, total=rng.random() < 0.4, allow_compound=True, in_bounds=True)
         c["I"] = {a: list(b) for a, b in I.items()}
         c["form"] = rng.randint(0, 2)
+    elif k == "poly_query":
+        c["q"] = rng.choice(["neglectable", "neglectable", "separable", "tighten", "row_bounds", "reducable", "satisfied"])
     elif k == "encode":
         c["active"] = rng.random() < 0.5
     elif k == "solve":
@@ -277,6 +293,14 @@ def do_case(ctx, inp):
         if c["k"] == "ge_polyhedron" and leaked[i]:
             mo = None       # a receiver already changed by the known leak: its cached polyhedron may predate the change
             ctx.tags["ge_polyhedron-on-leaked-receiver-not-compared"] += 1
+        if mo is not None and leaked[i] and c["k"] in ("flatten", "encode", "json_roundtrip"):
+            # … and where the leak has hit ONE of two equal objects held under one id (a coincident non-default branch), the
+            # receiver now holds two different nodes of that id — no longer a model the statement is about
+            bb = {}
+            for n_ in subs(t): bb.setdefault(n_["id"], set()).add((n_["lo"], n_["hi"]))
+            if any(len(v) > 1 for v in bb.values()):
+                mo = None
+                ctx.tags["leaked-receiver-with-two-nodes-of-one-id-not-compared"] += 1
         if mo is not None and not (isinstance(res, dict) and "exception" in res):
             op, wrap, norm = mo
             if c["k"] == "flatten":
